@@ -119,6 +119,33 @@ def run_case(case):
         if p.status == P.FINISHED_SUCCESS:
             res.violate("C05", "C05/success-with-unservable-task",
                         "task %s has no eligible worker but the project reports SUCCESS (task state %s)" % (victim.ID, victim.state.name))
+    # ---- the same project used again: plain second run / written and read back into the same BaseProject
+    # object / continued although complete. Same verdicts on the later call.
+    if case["i"] % 3 == 0 and not res["violations"]:
+        from .history import Hist
+        from .runner import resimulate
+        first_status, first_time = p.status, p.time
+        how = ["again", "reload", "continue"][(case["i"] // 3) % 3]
+        sl2 = StepLog()
+        err2 = None
+        if how == "reload":
+            err2 = Hist(spec, order=False, model=m).do(["reload"])
+        if err2 is None:
+            kw = dict(initialize_state_info=False, initialize_log_info=False) if how == "continue" else None
+            tr2, err2 = resimulate(m, spec, lambda started: [sl2], sim_kw=kw)
+        res.count("C05.later_calls." + how)
+        if err2 is not None:
+            res.violate("C05", "C05/exception-from-simulate:%s:%s:later-call-%s" % (err2["type"], err2["where"], how),
+                        "simulate() (%s) raised %s: %s" % (how, err2["type"], err2["msg"]))
+        else:
+            M.check_status(tr2, p, spec["sim"]["max_time"], sl2.steps if how != "continue" else None, time_before=first_time)
+            res.absorb(tr2, props=("C05",))
+            if how == "continue" and first_status == P.FINISHED_SUCCESS and (p.status != P.FINISHED_SUCCESS or p.time != first_time):
+                res.violate("C05", "C05/continued-complete-project-not-complete",
+                            "continuing a complete project (time %d) ended with %s at time %d" % (first_time, p.status.name, p.time))
+            if how != "continue" and (p.status != first_status):
+                res.violate("C05", "C05/later-call-ends-differently:%s" % how,
+                            "first run ended %s at %d, the %s run on the same project ended %s at %d" % (first_status.name, first_time, how, p.status.name, p.time))
     # non-trivial: >= 1 non-FS edge or a worker shared by >= 2 tasks
     nonfs = any(k != G.FS for t in spec["tasks"] for _, k in t["deps"])
     shared = False
